@@ -177,7 +177,7 @@ def daliserver_session(sc):
     import dali.driver.daliserver as DS
     cmds = [drivers.make_command(k, n) for k, n in sc["unit"]]
     descs = [drivers.describe_command(c) for c in cmds]
-    wire, replies = [], []
+    wire, replies, broken = [], [], []
     outcomes = sc["outcomes"]
 
     class Sock:
@@ -188,11 +188,18 @@ def daliserver_session(sc):
             ix = next(i for i, d in enumerate(descs) if d["frame"] == frame)
             o = outcomes[ix % len(outcomes)] if descs[ix]["query"] else ["none", 0]
             wire.append({"task": "S", "frame": frame, "bits": 8 * (len(data) - 2), "twice": descs[ix]["twice"], "outcome": o, "cmd": ix})
+            if sc.get("reset_at") == ix + 1:
+                # the TCP connection breaks in this exchange: no reply, the next read fails
+                wire[-1]["outcome"] = ["broken", 0]
+                broken.append(1)
+                return len(data)
             st = {"none": 0, "val": 1, "err": 255}[o[0]]
             replies.append(bytes([2, st, o[1] if o[0] == "val" else 0, 0]))
             return len(data)
 
         def recv(self, n):
+            if broken:
+                raise ConnectionResetError(104, "Connection reset by peer")
             return replies.pop(0) if replies else b"\x02\xff\x00\x00"
 
         def close(self):
@@ -202,7 +209,18 @@ def daliserver_session(sc):
     try:
         with DS.DaliServer(multiple_frames_per_connection=True) as d:
             for c in cmds:
-                results.append(drivers.describe_result(d.send(c)))
+                try:
+                    results.append(drivers.describe_result(d.send(c)))
+                except OSError as e:
+                    if not broken:
+                        raise
+                    # the session ends here: the failure is the result of this command
+                    results.append({"k": "exc", "cls": type(e).__name__, "raw": ["none", 0]})
+                    descs = descs[:len(results)]
+                    break
+                if broken:
+                    descs = descs[:len(results)]
+                    break
     except Exception as e:  # noqa
         exc = type(e).__name__
     # one wire entry per command for the judge (a send-twice command is two identical requests)
@@ -224,6 +242,11 @@ def sync_scenarios():
                  [["c24", 1], ["q24", 2]], [["dapc", 1], ["q16", 2], ["q16", 3]]):
         for outcomes in ([["val", 5], ["val", 77], ["val", 200], ["val", 9]], [["none", 0], ["val", 1], ["err", 0], ["val", 2]]):
             scs.append({"driver": "daliserver", "unit": unit, "outcomes": outcomes, "sync": 2, "tag": "sync-session"})
+            # ... and the TCP connection breaking in the k-th command's exchange: a failure of the transport, not an outcome on
+            # the bus -- it reaches the caller as an exception, never dressed up as an answer
+            for k in range(1, len(unit) + 1):
+                scs.append({"driver": "daliserver", "unit": unit, "outcomes": outcomes, "sync": 2, "reset_at": k,
+                            "tag": "sync-session-reset"})
     for drv in ("daliserver", "atx"):
         for key in ("dapc", "q16", "yn16", "st16", "cfg", "qdt6", "q24", "c24", "i24"):
             for outcome in (["none", 0], ["val", 0], ["val", 1], ["val", 0xFE], ["val", 0xFF], ["val", 0x42], ["err", 0]):
